@@ -83,7 +83,7 @@ def check_seq(prop, tier, seed, scale=1.0):
     found, sums, crashes = [], [], 0
     per_variant = {}
     for v in variants:
-        r = C.run_batch("seq", v, seed, tag + (50000 if v == "asan" else 70000 if v == "knob" else 0), profile, runs // 2 if v in ("asan", "knob") else runs, steps)
+        r = C.run_batch("seq", v, seed, tag + (50000 if v == "asan" else 70000 if v == "knob" else 0), profile, (runs // (2 if tier == "quick" else 8) if v == "asan" else runs // 2 if v == "knob" else runs), steps)
         found += [(v, rec) for rec in r["violations"]]
         sums += r["summaries"]
         crashes += r["crashes"]
